@@ -81,6 +81,16 @@ func (r *VerifRig) HandleMsg(data []byte) error {
 	return r.S.msgHandler.HandleMsg(data, time.Now())
 }
 
+// VerifVerifyPriority / VerifVerifySortition are the Server callbacks the proposal and voter
+// components are wired with (the live verification path of credentials).
+func (r *VerifRig) VerifVerifyPriority(pub *ecdsa.PublicKey, data *ConsensusCommon) error {
+	return r.S.verifyPriority(pub, data)
+}
+
+func (r *VerifRig) VerifVerifySortition(pub *ecdsa.PublicKey, data *SortitionData, lb params.LookBackType) error {
+	return r.S.verifySortition(pub, data, lb)
+}
+
 // VerifUpdateBlockHeader is what Server.eventLoop does with an UpdateExistedHeaderEvent.
 func (r *VerifRig) VerifUpdateBlockHeader(ev UpdateExistedHeaderEvent) { r.S.updateBlockHeader(ev) }
 
